@@ -328,3 +328,14 @@ package parser
 //@   ensures[C03,decimal-digit-is-a-digit-in-base-10] base == 10 && digit >= 48 && digit <= 57 ==> result1
 //@ end
 
+
+// C03: retstat ::= return [explist] [';'] closes a block, so the token after a bare `return` is one of the block
+// terminators end / else / elseif / until / end of file (or ';'). A value list is parsed only when none of these
+// follows; `repeat return until c` is valid Lua.
+//@ func (*Parser).parseRetExps
+//@   props C03
+//@   at call parseExpList#0 before assert[values-are-parsed-only-when-no-block-terminator-follows-the-return]
+//@        lastresult("LookAheadKind#1") != lexer.TkEOF && lastresult("LookAheadKind#1") != lexer.TkKwEnd && lastresult("LookAheadKind#1") != lexer.TkKwElse
+//@        && lastresult("LookAheadKind#1") != lexer.TkKwElseif && lastresult("LookAheadKind#1") != lexer.TkKwUntil && lastresult("LookAheadKind#1") != lexer.TkSepSemi
+//@   ensures[no-return-statement-no-values] hits("NextToken#0") == 0 ==> result == nil
+//@ end
